@@ -55,7 +55,11 @@ VARIABLES hist,      \* the calls so far: [op, n, m, rep, comp, enc]
           gdone
 gvars == <<hslots, hblocks, hcursor, ddisk, wopen, wdirty, vlf, stale, staleMap, pc, opr, pidx, pcnt, hsnap, lastres, devs, vcalls, hist, gkind, gres, gsr, gpreds, gdone>>
 
-OpRec(o, n, m, rep, comp, enc) == [op |-> o, n |-> n, m |-> m, rep |-> rep, comp |-> comp, enc |-> enc, big |-> FALSE]
+OpRec(o, n, m, rep, comp, enc) == [op |-> o, n |-> n, m |-> m, rep |-> rep, comp |-> comp, enc |-> enc, big |-> FALSE, tok |-> ""]
+\* content VALUES: an add stores a fresh content or one this name held before (at the start, or by an earlier add): the
+\* history v1 -> v2 -> v1 must end with v1 whatever the storage class of the copies
+PrevToks(n) == {hist[j].tok : j \in {i \in 1..Len(hist) : hist[i].op = "add" /\ hist[i].n = n}}
+               \cup (IF n \in DOMAIN GInitTok THEN {GInitTok[n]} ELSE {})
 \* sim mode: an add may store a content larger than one sector
 BigChoice == IF GMode = "sim" THEN BOOLEAN ELSE {FALSE}
 Tok(k) == "o" \o ToString(k)
@@ -64,9 +68,12 @@ Encs == CASE GEnc = 0 -> {"none"} [] GEnc = 1 -> {"none", "enc"} [] OTHER -> {"n
 Comps(k, n) == IF GMode = "sim" THEN {"zlib", "none"} ELSE {CompOf(k, n)}
 K == Len(hist) + 1
 
-GAdd    == \E n \in OpNames, rep \in BOOLEAN, enc \in Encs, big \in BigChoice : \E comp \in Comps(K, n) :
-              BeginAdd(n, Tok(K), rep, enc, comp, big)
-              /\ hist' = Append(hist, [OpRec("add", n, "", rep, comp, enc) EXCEPT !.big = big])
+\* fill mode: additions go to names that are not in the archive as long as there are any and the table has a free slot,
+\* so that every fill history reaches a table without Empty slot, is refused there, and goes on with removes / re-adds
+FillOK(n) == ~GFill \/ SessView[n] = None \/ NoFree(hslots) \/ \A x \in OpNames : SessView[x] # None
+GAdd    == \E n \in {x \in OpNames : FillOK(x)}, rep \in BOOLEAN, enc \in Encs, big \in BigChoice : \E comp \in Comps(K, n), c \in {Tok(K)} \cup PrevToks(n) :
+              BeginAdd(n, c, rep, enc, comp, big)
+              /\ hist' = Append(hist, [OpRec("add", n, "", rep, comp, enc) EXCEPT !.big = big, !.tok = c])
 GRemove == \E n \in OpNames : BeginRemove(n) /\ hist' = Append(hist, OpRec("remove", n, "", TRUE, "none", "none"))
 GRename == \E a \in OpNames, b \in OpNames : BeginRename(a, b) /\ hist' = Append(hist, OpRec("rename", a, b, TRUE, "none", "none"))
 GFlush  == (FlushClean \/ FlushRelocate) /\ hist' = Append(hist, OpRec("flush", "", "", TRUE, "none", "none"))
